@@ -1082,7 +1082,7 @@ func requiredFeatures() []string {
 		for _, op := range []string{"imp", "rns", "star", "starns"} {
 			for _, c := range []string{"esm+lazy", "esmdyn+lazy", "cjs", "json"} {
 				if w == "dep" && c == "json" {
-					continue // needs a third generated module: thorough only (gwrap4)
+					continue // needs a third generated module: thorough only (gwrapT)
 				}
 				out = append(out, w+":"+op+">"+c)
 			}
@@ -1111,21 +1111,26 @@ func Run(r *core.Run) {
 		replayOne(r)
 		return
 	}
+	// many short TLC runs side by side (<= 8 workers in total): keep every JVM's
+	// helper threads (GC, JIT) few, the defaults are sized for the whole machine
+	if os.Getenv("_JAVA_OPTIONS") == "" {
+		os.Setenv("_JAVA_OPTIONS", "-XX:ParallelGCThreads=2 -XX:CICompilerCount=2")
+	}
 	// Stage 1 generator configs (Mode "gen": graphs with feature labels).
 	gens := []genCfg{
-		{Config: "ModuleSem.gwrapE.cfg", Timeout: 900, Quota: r.Pick(220, 1200)},
-		{Config: "ModuleSem.gwrapC.cfg", Timeout: 900, Quota: r.Pick(120, 800)},
+		{Config: "ModuleSem.gwrapE.cfg", Timeout: 900, Quota: r.Pick(220, 500)},
+		{Config: "ModuleSem.gwrapC.cfg", Timeout: 900, Quota: r.Pick(120, 400)},
 		{Config: "ModuleSem.qesm.cfg", Timeout: 900, Quota: 250, Quick: true},
 		{Config: "ModuleSem.qmixed.cfg", Timeout: 900, Quota: 250, Quick: true},
 		{Config: "ModuleSem.qstar.cfg", Timeout: 900, Quota: 150, Quick: true},
-		{Config: "ModuleSem.simmixed.cfg", Simulate: fmt.Sprintf("num=%d", r.Pick(150, 3000)), Depth: 40, Timeout: 1500, Quota: r.Pick(120, 600)},
-		{Config: "ModuleSem.simesm.cfg", Simulate: "num=2000", Depth: 40, Timeout: 1500, Thorough: true, Quota: 400},
-		{Config: "ModuleSem.gwrap4.cfg", Timeout: 1500, Thorough: true, Quota: 1500},
-		{Config: "ModuleSem.esm2.cfg", Timeout: 1500, Thorough: true, Quota: 1000},
-		{Config: "ModuleSem.mixed2.cfg", Timeout: 1500, Thorough: true, Quota: 1200},
-		{Config: "ModuleSem.cyc3.cfg", Timeout: 1500, Thorough: true, Quota: 500},
-		{Config: "ModuleSem.star3.cfg", Timeout: 1500, Thorough: true, Quota: 500},
-		{Config: "ModuleSem.cjs3.cfg", Timeout: 1500, Thorough: true, Quota: 500},
+		{Config: "ModuleSem.simmixed.cfg", Simulate: fmt.Sprintf("num=%d", r.Pick(150, 1200)), Depth: 40, Timeout: 1500, Quota: r.Pick(120, 400)},
+		{Config: "ModuleSem.simesm.cfg", Simulate: "num=800", Depth: 40, Timeout: 1500, Thorough: true, Quota: 300},
+		{Config: "ModuleSem.gwrapT.cfg", Timeout: 1500, Thorough: true, Quota: 900},
+		{Config: "ModuleSem.esm2.cfg", Timeout: 1500, Thorough: true, Quota: 600},
+		{Config: "ModuleSem.mixed2.cfg", Timeout: 1500, Thorough: true, Quota: 700},
+		{Config: "ModuleSem.cyc3.cfg", Timeout: 1500, Thorough: true, Quota: 300},
+		{Config: "ModuleSem.star3.cfg", Timeout: 1500, Thorough: true, Quota: 300},
+		{Config: "ModuleSem.cjs3.cfg", Timeout: 1500, Thorough: true, Quota: 300},
 	}
 	var active []genCfg
 	for _, gc := range gens {
@@ -1139,9 +1144,12 @@ func Run(r *core.Run) {
 	if r.Thorough() {
 		par, workers = 2, 4
 	}
+	// DataLoad's enumeration runs side by side with stage 1
+	contentsCh := make(chan []*content, 1)
+	go func() { contentsCh <- enumerateContents(r) }()
 	results := make([][]*graphSpec, len(active))
 	core.Parallel(len(active), par, func(i int) { results[i] = generate(r, active[i], workers) })
-	sel, inhabited := selectGraphs(r, active, results, r.Pick(2, 4))
+	sel, inhabited := selectGraphs(r, active, results, r.Pick(2, 3))
 	// Stage 2: the specification runs the selected graphs
 	all := runSpec(r, sel, r.Pick(4, 4), 2)
 	replayed := map[string]int{}
@@ -1170,7 +1178,7 @@ func Run(r *core.Run) {
 	}
 	r.Logf("%d graphs to replay (%d of %d selected are outside the generated family); %d feature labels replayed, %d generated only", len(all), len(sel)-len(all), len(sel), len(replayed), len(thin))
 	runGraphs(r, all)
-	runDataLoaders(r)
+	runDataLoaders(r, <-contentsCh)
 	r.Set("rule", "a case = one module graph of the bounded family generated by TLC from ModuleSem (<= N modules x <= K statements; kinds esm/cjs/json and preset leaves) whose spec-predicted trace agrees with Node's native loaders, replayed through api.Build in the selected format x platform x minify configurations; distinct by the hash of (kinds, bodies); non-trivial = the graph has a cycle or self-import, an export star, mixes ESM and CommonJS, or imports a data file.  Data-loader cases: one (loader, content, importing syntax) triple of the family enumerated by TLC from DataLoad, distinct by these three")
 }
 
